@@ -37,7 +37,9 @@ TYPE_SLOTS = ['build_name', 'func', 'cache_filename', 'versions', 'versions-nonj
 def families(tier):
     base = [
         {'name': 'types', 'params': {}, 'weight': 1},
+        {'name': 'types', 'params': {'hist': 'BMB', 'slots': ['func', 'versions-nonjson', 'build_name', 'clean-build_name']}, 'weight': 1},
         {'name': 'name', 'params': {}, 'weight': 1},
+        {'name': 'name', 'params': {'hist': 'BMB'}, 'weight': 1},
         {'name': 'cache-dir', 'params': {}, 'weight': 1},
         {'name': 'read-error', 'params': {}, 'weight': 2},
         {'name': 'doc-class', 'params': {}, 'weight': 2},
@@ -236,7 +238,7 @@ def harness(eng, fam, P):
     if fam == 'bytes':
         return bytes_corpus(eng, P)
     from file_builder import FileBuilder
-    bodies = skeleton(eng, 'A5b', {'modes': ['ok'], 'hist': 'B'})
+    bodies = skeleton(eng, 'A5b', {'modes': ['ok'], 'hist': 'B'}) if not P.get('hist') else [[('BF', 'o/d/g', {'mode': 'ok'}, [])]]
     prog = Program(eng, bodies[0])
     w = World(eng, U7, sandbox=getattr(eng, 'sandbox', None))
     eng.path_info['program'] = show(bodies[0])
@@ -260,7 +262,8 @@ def harness(eng, fam, P):
         cache, name, versions, fn = w.cache, 'n', {}, func
         what = None
         if fam == 'types':
-            slot = TYPE_SLOTS[eng.choose('slot', len(TYPE_SLOTS))]
+            slots = P.get('slots', TYPE_SLOTS)
+            slot = slots[eng.choose('slot', len(slots))]
             what = slot
             if slot.startswith('clean'):
                 api = 'clean'
